@@ -1,16 +1,25 @@
 (** C07 -- executable model of Spyne's WSDL 1.1 / XSD generation at the level of
     definitions and references.  Definitions only.
 
-    Mirrors (repaired tree, see proposed_fixes/):
+    Mirrors (repaired tree, see proposed_fixes/C07-*.patch):
       spyne/interface/_base.py     Interface.get_namespace_prefix
-      spyne/util/toposort.py       toposort2
+      spyne/util/toposort.py       toposort2, _sort_key
       spyne/interface/xml_schema/_base.py  XmlSchema.add / build_schema_nodes /
                                    add_missing_elements_for_methods / add_element /
                                    add_complex_type / get_schema_info
-      spyne/interface/xml_schema/model.py  complex_add (names, base, members, element)
+      spyne/interface/xml_schema/model.py  complex_add (names, base, members, element;
+                                   the recursive document.add(member) included)
       spyne/interface/wsdl/wsdl11.py       build_interface_document, add_messages_for_methods,
                                    _add_message_for_object, add_port_type, check_method_port,
-                                   add_bindings_for_methods, _add_port_to_service
+                                   add_bindings_for_methods, _get_or_create_binding,
+                                   _add_port_to_service
+
+    The tokens of those emitters that decide the property on their own are not
+    written here: they are read from the working tree by
+    harness/translate/wsdlgen.py into Gen/WsdlGen.v (which prefix qualifies a
+    message= reference, whether the import sets are iterated through sorted(), the
+    components of the toposort2 key, the header-message suffixes, the prefix stem)
+    and used below ([gen_...]).
 
     The input is a snapshot of the populated Interface (classes/deps/imports, the
     method descriptors of the services, the prefix tables).  The output is the
@@ -19,7 +28,8 @@
     that the real code writes are obtained by replaying, in the order of the real
     code, every call of get_namespace_prefix ([d_trace1] up to the creation of the
     wsdl:definitions element, whose nsmap is frozen by lxml at that point, and
-    [d_trace2] afterwards). *)
+    [d_trace2] afterwards).  Python exceptions are [RErr] values; [EModelLimit]
+    (out of fuel) is never a normal value (C07_prefix_total, C07_toposort_total). *)
 From SpyneV Require Export Base.Prelude Base.Digits C07.Vocab Gen.WsdlGen.
 
 (* ---------------------------------------------------------------- errors *)
